@@ -32,7 +32,7 @@ class C11Spec(explore.Spec):
             evs += [alpha.rx(t["WA"]), alpha.rx(t["RA0"]), ("set", 1, 0, 2, "0")]
         evs += [("fw", 1, 1, 1, "F1")]
         vt = 47 if v >= "2.0" else 24
-        payloads = PAYLOADS if self.tier == "thorough" else PAYLOADS[:7]
+        payloads = PAYLOADS if self.tier == "thorough" else PAYLOADS[:6] + PAYLOADS[-1:]
         for p in payloads:
             evs.append(alpha.rx(f"1;0;1;0;{vt};{p}"))
             evs.append(alpha.rx(f"1;255;3;0;11;{p}"))
